@@ -172,7 +172,7 @@ def run_sign(case, agg):
         try:
             if seed_slice(case["i"], 397):
                 rc, so, se = impl.cli(["sign", "single-level", "--input-envelope", inp, "--output-envelope", outp, "--key-name", kname,
-                                       "--key-id", hex(case["kid"]), "--alg", case["alg"], "--context", kd, "--sign-script", sign_script,
+                                       "--key-id", (hex, str, oct, bin)[case["kid"] % 4](case["kid"]), "--alg", case["alg"], "--context", kd, "--sign-script", sign_script,
                                        "--kms-script", kms_script], d)
                 if rc != 0:
                     raise RuntimeError(f"CLI rc={rc}: {se[-400:]}")
